@@ -715,31 +715,113 @@ class _CloneFlow(PyFlow):
             return [("WITNESS", False)]
         return []
 
+    # state = (ownership, frozenset of (atom text, truth)): the facts make
+    # contradictory paths recognisable (`needs = a or b ... if a:`)
     def step(self, st, ev, e, node):
+        own, facts = st
         if ev == "ASSIGN":
             v = norm(e.value)
             fresh = (v.startswith("_clone_trait(") or v.startswith("CTrait(")
                      or "_clone_trait(" in v or ".as_ctrait()" in v)
-            return "owned" if fresh else "shared"
+            return ("owned" if fresh else "shared", facts)
         if ev == "USE":
-            self.result.append(st)
+            texts = {}
+            contradictory = False
+            for t, tr in facts:
+                if texts.setdefault(t, tr) != tr:
+                    contradictory = True
+            if not contradictory:
+                self.result.append(own)
         return st
 
+    def transfer(self, node, state):
+        if node.kind == "fornext":
+            # facts of the previous iteration say nothing about this one
+            state = (state[0], frozenset())
+        return super().transfer(node, state)
+
     def assume(self, test, truth, st):
+        own, facts = st
         # ownership witness: `name not in cloned` false => cloned earlier
         t = norm(test)
+        if t in self.relevant:
+            facts = facts | {(t, truth)}
         if t.endswith(" not in cloned") and not truth:
-            return "owned"
+            return ("owned", facts)
         if t.endswith(" in cloned") and " not in " not in t and truth:
-            return "owned"
-        return st
+            return ("owned", facts)
+        return (own, facts)
 
 
 def _dominated_by_clone(fn, call, var):
     import sys
     from ..pyfacts import Module
-    fl = _CloneFlow(_DummyMod(), fn, call, var)
-    fl.run("shared")
+    # flag locals in tests stand for their definitions
+    import copy as _copy
+    from ..pyfacts import expand_locals
+    fn2 = _copy.deepcopy(fn)
+    # map the call node into the copy by position
+    pos = (call.lineno, call.col_offset)
+    # only names that stand as a whole for a test or one of its boolean
+    # operands are flags (`cloned`, `handlers`, ... are data)
+    flagdefs = {}
+    counts = {}
+    for a_ in ast.walk(fn):
+        if isinstance(a_, ast.Assign) and len(a_.targets) == 1 \
+                and isinstance(a_.targets[0], ast.Name):
+            counts[a_.targets[0].id] = counts.get(a_.targets[0].id, 0) + 1
+            flagdefs[a_.targets[0].id] = a_.value
+    flagdefs = {k: v for k, v in flagdefs.items() if counts[k] == 1
+                and isinstance(v, (ast.Compare, ast.BoolOp, ast.UnaryOp))}
+
+    def expand_flags(e, depth=0):
+        if depth > 3:
+            return e
+        if isinstance(e, ast.Name) and e.id in flagdefs:
+            return expand_flags(_copy.deepcopy(flagdefs[e.id]), depth + 1)
+        if isinstance(e, ast.BoolOp):
+            e.values = [expand_flags(v, depth) for v in e.values]
+        elif isinstance(e, ast.UnaryOp) and isinstance(e.op, ast.Not):
+            e.operand = expand_flags(e.operand, depth)
+        return e
+    for n in ast.walk(fn2):
+        if isinstance(n, (ast.If, ast.While, ast.IfExp)):
+            n.test = expand_flags(n.test)
+    call2 = next((n for n in ast.walk(fn2) if isinstance(n, ast.Call)
+                  and (n.lineno, n.col_offset) == pos
+                  and norm(n) == norm(call)), None)
+    if call2 is None:
+        fn2, call2 = fn, call
+    fl = _CloneFlow(_DummyMod(), fn2, call2, var)
+    # only the atoms of the conditions that guard the use or a (re)binding
+    # of the variable are remembered
+    par = {}
+    for p_ in ast.walk(fn2):
+        for c_ in ast.iter_child_nodes(p_):
+            par[id(c_)] = p_
+    anchors = [call2] + [n for n in ast.walk(fn2) if isinstance(n, ast.Assign)
+                         and any(isinstance(t, ast.Name) and t.id == var
+                                 for t in n.targets)]
+    relevant = set()
+
+    def leaves(e):
+        if isinstance(e, ast.BoolOp):
+            for v in e.values:
+                yield from leaves(v)
+        elif isinstance(e, ast.UnaryOp) and isinstance(e.op, ast.Not):
+            yield from leaves(e.operand)
+        else:
+            yield e
+    for a in anchors:
+        node = a
+        while id(node) in par:
+            node = par[id(node)]
+            if isinstance(node, ast.If):
+                relevant |= {norm(x) for x in leaves(node.test)}
+            if isinstance(node, (ast.For, ast.While)):
+                break
+    fl.relevant = relevant
+    fl.run(("shared", frozenset()))
     return bool(fl.result) and all(r == "owned" for r in fl.result)
 
 
